@@ -25,7 +25,7 @@ type Env struct {
 	allocPre      string // for fresh(): allocation counter before the call
 	probes        []Probe
 	depth         int
-	outOfScope    bool // a local was referenced at a point its definition does not dominate
+	outOfScope    *bool // set when a local is referenced at a point its definition does not dominate (shared by clones)
 }
 
 // SVal is the result of evaluating a contract expression.
@@ -342,7 +342,9 @@ func (env *Env) local(name string) (Val, bool) {
 		}
 		if env.retBlock != nil {
 			if vi, ok := found.(ssa.Instruction); ok && vi.Block() != nil && !vi.Block().Dominates(env.retBlock) {
-				env.outOfScope = true
+				if env.outOfScope != nil {
+					*env.outOfScope = true
+				}
 				return Val{}, false
 			}
 		}
@@ -841,7 +843,8 @@ func (env *Env) callSpec(e *ECall) (SVal, error) {
 		}
 		if id.Name == "domOf" {
 			d := env.st.Get(x.mdName(mt), "(Array Int (Array "+ks+" Bool))")
-			return SVal{Val: Val{L: []string{Select(d, v.L[0])}}, ghostSort: "(Array " + ks + " Bool)"}, nil
+			// a nil map has the empty domain
+			return SVal{Val: Val{L: []string{Ite(Eq(v.L[0], "0"), "((as const (Array "+ks+" Bool)) false)", Select(d, v.L[0]))}}, ghostSort: "(Array " + ks + " Bool)"}, nil
 		}
 		ls := x.eng.layout(mt.Elem())
 		if len(ls) != 1 {
@@ -877,6 +880,21 @@ func (env *Env) callSpec(e *ECall) (SVal, error) {
 			}
 		}
 		return SVal{}, fmt.Errorf("loop %d is not a range over a map", n)
+	case "asPtr":
+		// asPtr(ref, "*T"): view an object reference (e.g. a ghost copy of a pointer) as a typed pointer
+		v, err := env.evalRV(e.Args[0])
+		if err != nil {
+			return SVal{}, err
+		}
+		ts, ok := e.Args[1].(*EStr)
+		if !ok || len(v.L) != 1 {
+			return SVal{}, fmt.Errorf("asPtr(ref, \"*T\")")
+		}
+		t, err := x.eng.lookupType(ts.V, env.imports, env.pkgPath)
+		if err != nil {
+			return SVal{}, err
+		}
+		return SVal{Val: Val{Typ: t, L: []string{v.L[0]}}}, nil
 	case "allocated":
 		// the reference denotes an object that exists in the current state (or nil)
 		v, err := env.evalRV(e.Args[0])
